@@ -110,6 +110,12 @@ class Chooser:
             s = self.r.choice(first) + "".join(self.r.choice(rest) for _ in range(n - 1))
             if self.r.random() < 0.3:
                 s = self.r.choice(["loop", "let", "map", "register", "macro", "from", "as", "subcircuit", "branch", "e", "E", "x0"]) + s
+            x = self.r.random()
+            if x < 0.08:
+                # a keyword is only a keyword as a WHOLE identifier: `loop.fast`, `let.x`, `a.from`
+                s = self.r.choice(sorted(KEYWORDS)) + "." + s
+            elif x < 0.12:
+                s = s + "." + self.r.choice(sorted(KEYWORDS))
             while self.r.random() < 0.12:
                 # the identifier token only restricts its FIRST character: parts after a dot
                 # may begin with a digit (`a.1`, `q.0x`)
@@ -161,7 +167,7 @@ REG_POOL = ["q", "r", "reg", "Q"]
 MAP_POOL = ["u", "v", "w", "t", "s", "z", "aa", "bb"]
 MACRO_POOL = ["m0", "m1", "m2", "F", "G", "H", "foo", "bar"]
 PARAM_POOL = ["p", "o", "e", "f", "d", "self", "args"]  # legal identifiers that are special to Python, not to Jaqal
-GATE_POOL = ["g", "h", "Rx", "MS", "X", "Sx", "gate.with.dots", "G_1", "g.1"]
+GATE_POOL = ["g", "h", "Rx", "MS", "X", "Sx", "gate.with.dots", "G_1", "g.1", "loop.fast"]
 PULSE_POOL = ["qscout.v1.std", "a.b", "mod", ".local", ".x.y", "pkg.sub.mod", "pkg.2x", ".cal.2024_a"]
 
 
@@ -222,6 +228,9 @@ class Builder:
         ch, cfg, sc = self.ch, self.cfg, self.sc
         if cfg.usepulses and ch.int(0, 3) == 0:
             prog["usepulses"] = ch.sample(PULSE_POOL, ch.int(1, 2))
+            if ch.int(0, 3) == 0:
+                # the same module imported again (A, A / A, B, A): every import is a statement
+                prog["usepulses"] = prog["usepulses"] + [prog["usepulses"][0]]
         for n in ch.names(LET_POOL, ch.int(0, cfg.max_lets), p_random=cfg.random_names):
             v = ch.int(0, 6) if ch.int(0, 9) < 6 else self.num()
             prog["lets"].append([n, v])
